@@ -877,3 +877,56 @@ def runs_only_when(body, local, truth, target):
         if want and target not in body.reachable_from(list(other), avoid={sb}) and target in body.reachable_from(list(want), avoid={sb}):
             return True
     return False
+
+
+# --------------------------------------------------------------------------- interprocedural value sources
+
+def value_sources(prog, body, op, depth=5, _seen=None):
+    """backward slice of an operand along copies / refs / casts / Deref-like calls and, for parameters, into the
+    matching argument of every caller (resolved, CHA and closure edges).  Returns a list of
+    ('call', callee name, body.short, line) | ('place', place, body.short) | ('const', k, body.short) | ('rv', kind, body.short).
+    Values produced by other calls or computations are *ends* of the slice (reported, not followed)."""
+    seen = _seen if _seen is not None else set()
+    out = []
+    p = op_place(op)
+    if p is None:
+        return [("const", op_const(op), body.short)]
+    origins = body.trace_local(p[0]) if all(e == "*" for e in p[1:]) else [("place", p)]
+    for og in origins:
+        if og[0] == "arg":
+            n = og[1]
+            key = (body.id, n)
+            if key in seen or depth <= 0:
+                continue
+            seen.add(key)
+            for (cid, kind, blk) in prog.callers().get(body.id, []):
+                caller = prog.bodies.get(cid)
+                if caller is None or kind == "ref":
+                    continue
+                t = caller.term(blk)
+                if t["t"] != "call" or len(t["args"]) < n:
+                    continue
+                out += value_sources(prog, caller, t["args"][n - 1], depth - 1, seen)
+        elif og[0] == "call":
+            out.append(("call", callee(og[2]), body.short, og[2].get("line")))
+        elif og[0] == "place":
+            q = og[1]
+            out.append(("place", q, body.short))
+            # a projection of a plain local (tuple field, enum payload): keep slicing the local it was built from
+            if not any(e == "*" for e in q[1:]) and (body.id, "l", q[0]) not in seen:
+                seen.add((body.id, "l", q[0]))
+                for (bb, jj, rv) in body.defs_of(q[0]):
+                    if jj == "term":
+                        out.append(("call", callee(rv), body.short, rv.get("line")))
+                        for a in rv["args"]:
+                            if depth > 0:
+                                out += value_sources(prog, body, a, depth - 1, seen)
+                    elif rv[0] in ("agg", "use", "cast", "ref"):
+                        for a in rvalue_operands(rv):
+                            if depth > 0:
+                                out += value_sources(prog, body, a, depth - 1, seen)
+        elif og[0] == "const":
+            out.append(("const", og[1], body.short))
+        elif og[0] == "rv":
+            out.append(("rv", og[1][0], body.short))
+    return out
